@@ -215,29 +215,27 @@ Proof. intros. destruct tls12; cbn [tls_prf_model ver_of tls_prf]; [apply prf2_m
 
 (* ================================================================== labels and constants regenerated from the C source
    equal the RFC's literals (a changed string in prf.c / tls.c / hsHash.c / tls13KeySchedule.c breaks these) *)
-Lemma lbl_master : firstn n_tls_LABEL_SIZE s_tls_LABEL_MASTERSEC = str "master secret". Proof. vm_compute. reflexivity. Qed.
-Lemma lbl_keyexp : firstn n_tls_LABEL_SIZE s_tls_LABEL_KEY_BLOCK = str "key expansion". Proof. vm_compute. reflexivity. Qed.
-Lemma lbl_ems : firstn n_tls_LABEL_EXT_SIZE s_tls_LABEL_EXT_MASTERSEC = str "extended master secret". Proof. vm_compute. reflexivity. Qed.
-Lemma lbl_cfin : firstn n_hsHash_FINISHED_LABEL_SIZE s_hsHash_LABEL_CLIENT = str "client finished". Proof. vm_compute. reflexivity. Qed.
-Lemma lbl_sfin : firstn n_hsHash_FINISHED_LABEL_SIZE s_hsHash_LABEL_SERVER = str "server finished". Proof. vm_compute. reflexivity. Qed.
-Lemma lbl_prefix : s_hkdf_prefix = str "tls13 ". Proof. vm_compute. reflexivity. Qed.
-Lemma lbl_derived : firstn n_tls13KeySchedule_derivedLabelLen s_tls13KeySchedule_derivedLabel = str "derived". Proof. vm_compute. reflexivity. Qed.
-Lemma lbl_extb : firstn n_tls13KeySchedule_extBinderLabelLen s_tls13KeySchedule_extBinderLabel = str "ext binder". Proof. vm_compute. reflexivity. Qed.
-Lemma lbl_resb : firstn n_tls13KeySchedule_resBinderLabelLen s_tls13KeySchedule_resBinderLabel = str "res binder". Proof. vm_compute. reflexivity. Qed.
-Lemma lbl_cet : firstn n_tls13KeySchedule_earlyTrafficLabelLen s_tls13KeySchedule_cEarlyTrafficLabel = str "c e traffic". Proof. vm_compute. reflexivity. Qed.
-Lemma lbl_chs : firstn n_tls13KeySchedule_trafficLabelLen s_tls13KeySchedule_cHsTrafficLabel = str "c hs traffic". Proof. vm_compute. reflexivity. Qed.
-Lemma lbl_shs : firstn n_tls13KeySchedule_trafficLabelLen s_tls13KeySchedule_sHsTrafficLabel = str "s hs traffic". Proof. vm_compute. reflexivity. Qed.
-Lemma lbl_cap : firstn n_tls13KeySchedule_trafficLabelLen s_tls13KeySchedule_cApTrafficLabel = str "c ap traffic". Proof. vm_compute. reflexivity. Qed.
-Lemma lbl_sap : firstn n_tls13KeySchedule_trafficLabelLen s_tls13KeySchedule_sApTrafficLabel = str "s ap traffic". Proof. vm_compute. reflexivity. Qed.
-Lemma lbl_res : firstn n_tls13KeySchedule_resLabelLen s_tls13KeySchedule_resLabel = str "res master". Proof. vm_compute. reflexivity. Qed.
-Lemma lbl_fin : firstn n_tls13KeySchedule_finishedLabelLen s_tls13KeySchedule_finishedLabel = str "finished". Proof. vm_compute. reflexivity. Qed.
-Lemma lbl_key : the_arg a_tls13KeySchedule_key = str "key". Proof. vm_compute. reflexivity. Qed.
-Lemma lbl_iv : the_arg a_tls13KeySchedule_iv = str "iv". Proof. vm_compute. reflexivity. Qed.
-Lemma lbl_resumption : the_arg a_tls13Resume_resumption = str "resumption". Proof. vm_compute. reflexivity. Qed.
-Lemma lbl_cv_server : s_tls13Encode_contextStrServer = str "TLS 1.3, server CertificateVerify" /\ s_tls13Decode_contextStrServer = str "TLS 1.3, server CertificateVerify".
-Proof. split; vm_compute; reflexivity. Qed.
-Lemma lbl_cv_client : s_tls13Encode_contextStrClient = str "TLS 1.3, client CertificateVerify" /\ s_tls13Decode_contextStrClient = str "TLS 1.3, client CertificateVerify".
-Proof. split; vm_compute; reflexivity. Qed.
+Lemma lbl_master : l_master = str "master secret". Proof. vm_compute. reflexivity. Qed.
+Lemma lbl_keyexp : l_key_block = str "key expansion". Proof. vm_compute. reflexivity. Qed.
+Lemma lbl_ems : l_ext_master = str "extended master secret". Proof. vm_compute. reflexivity. Qed.
+Lemma lbl_cfin : l_client_finished = str "client finished". Proof. vm_compute. reflexivity. Qed.
+Lemma lbl_sfin : l_server_finished = str "server finished". Proof. vm_compute. reflexivity. Qed.
+Lemma lbl_prefix : s_hkdf_prefix = LBL_tls13_prefix. Proof. vm_compute. reflexivity. Qed.
+Lemma lbl_derived : l_derived = str "derived". Proof. vm_compute. reflexivity. Qed.
+Lemma lbl_extb : l_ext_binder = str "ext binder". Proof. vm_compute. reflexivity. Qed.
+Lemma lbl_resb : l_res_binder = str "res binder". Proof. vm_compute. reflexivity. Qed.
+Lemma lbl_cet : l_c_e_traffic = str "c e traffic". Proof. vm_compute. reflexivity. Qed.
+Lemma lbl_chs : l_c_hs_traffic = str "c hs traffic". Proof. vm_compute. reflexivity. Qed.
+Lemma lbl_shs : l_s_hs_traffic = str "s hs traffic". Proof. vm_compute. reflexivity. Qed.
+Lemma lbl_cap : l_c_ap_traffic = str "c ap traffic". Proof. vm_compute. reflexivity. Qed.
+Lemma lbl_sap : l_s_ap_traffic = str "s ap traffic". Proof. vm_compute. reflexivity. Qed.
+Lemma lbl_res : l_res_master = str "res master". Proof. vm_compute. reflexivity. Qed.
+Lemma lbl_fin : l_finished = str "finished". Proof. vm_compute. reflexivity. Qed.
+Lemma lbl_key : l_key = str "key". Proof. vm_compute. reflexivity. Qed.
+Lemma lbl_iv : l_iv = str "iv". Proof. vm_compute. reflexivity. Qed.
+Lemma lbl_resumption : l_resumption = str "resumption". Proof. vm_compute. reflexivity. Qed.
+Lemma lbl_cv_server : l_cv_server = str "TLS 1.3, server CertificateVerify". Proof. vm_compute. reflexivity. Qed.
+Lemma lbl_cv_client : l_cv_client = str "TLS 1.3, client CertificateVerify". Proof. vm_compute. reflexivity. Qed.
 Lemma empty_hash_256 : s_sha256OfEmptyInput = sha256_spec []. Proof. vm_compute. reflexivity. Qed.
 Lemma empty_hash_384 : s_sha384OfEmptyInput = sha384_spec []. Proof. vm_compute. reflexivity. Qed.
 Lemma sizes_ok : t_SSL_HS_MASTER_SIZE = 48 /\ t_TLS_HS_FINISHED_SIZE = 12 /\ t_SHA256_HASH_SIZE = 32 /\ t_SHA384_HASH_SIZE = 48 /\
@@ -341,7 +339,7 @@ Proof.
 Qed.
 
 (* ================================================================== TLS 1.3: hkdf.c psHkdfExpandLabel, tls13KeySchedule.c *)
-Lemma str_length_prefix : length (str "tls13 ") = 6. Proof. reflexivity. Qed.
+Lemma str_length_prefix : length LBL_tls13_prefix = 6. Proof. reflexivity. Qed.
 
 Lemma HMAC_length : forall h k m, length (HMAC h k m) = TlsSpec.hlen h.
 Proof.
@@ -377,7 +375,7 @@ Proof.
   destruct (255 <? length context) eqn:E4; [apply Nat.ltb_lt in E4; lia|]. cbn [orb bind].
   rewrite (Nat.mod_small (6 + length label)) by lia. rewrite (Nat.mod_small (length context)) by lia.
   set (info := _ ++ _ ++ _).
-  assert (Einfo : info = be16 L ++ N.of_nat (6 + length label) :: str "tls13 " ++ label ++ N.of_nat (length context) :: context).
+  assert (Einfo : info = be16 L ++ N.of_nat (6 + length label) :: LBL_tls13_prefix ++ label ++ N.of_nat (length context) :: context).
   { subst info. unfold be16. cbn [app]. rewrite <- app_assoc. reflexivity. }
   rewrite Einfo. apply hkdf_expand_model_eq; try assumption.
   unfold be16. cbn [app length]. rewrite !app_length. cbn [length]. rewrite str_length_prefix. lia.
@@ -502,13 +500,10 @@ Proof.
 Qed.
 
 Theorem make_tbs_model_eq : forall th,
-  make_tbs_model s_tls13Encode_contextStrServer th = cv13_content true th /\
-  make_tbs_model s_tls13Decode_contextStrServer th = cv13_content true th /\
-  make_tbs_model s_tls13Encode_contextStrClient th = cv13_content false th /\
-  make_tbs_model s_tls13Decode_contextStrClient th = cv13_content false th.
+  make_tbs_model l_cv_server th = cv13_content true th /\ make_tbs_model l_cv_client th = cv13_content false th.
 Proof.
-  intro th. destruct lbl_cv_server as [-> ->]. destruct lbl_cv_client as [-> ->].
-  unfold make_tbs_model, cv13_content. repeat split; rewrite <- !app_assoc; reflexivity.
+  intro th. rewrite lbl_cv_server, lbl_cv_client.
+  unfold make_tbs_model, cv13_content. split; reflexivity.
 Qed.
 
 (* ================================================================== nonces and additional data *)
